@@ -6,6 +6,7 @@ import TM.Scrollback
 import TM.Mirror
 import TM.SpanLine
 import TM.Reader
+import TM.SpanScreen
 /-!
 # Driver — line-protocol executable running the model in lock-step with the harness.
 
@@ -390,6 +391,33 @@ partial def loop (wt : WidthTable) (h : IO.FS.Stream) (d : DState) : IO Unit := 
     let o ← IO.getStdout
     o.putStrLn s!"{match b with | some x => toString x.toNat | none => "-"} {r.buf.start} {r.buf.stop} {r.buf.data.length}"; o.flush
     loop wt h { d with rdr := r }
+  | ["ss", w, hh, cx, cy, sx, sy, top, bot, wrap, sty, rows, op, a, b] =>
+    -- one screen-level operation of the span buffer on a real screen sent by the harness:
+    -- rows `cached:runs|…`; op = put <hex> <cp> | lf | ind | ri | su n | sd n | il n | dl n | el p | ed p | ech n | dch n | resize w h
+    let lines : List SLine := if rows = "-" then [] else (rows.splitOn "|").map fun r =>
+      match r.splitOn ":" with
+      | [c, rs] => ⟨spansOfStr rs, c.toNat!⟩
+      | _ => ⟨[], 0⟩
+    let s : SScr := { w := w.toNat!, h := hh.toNat!, lines := lines, cx := cx.toNat!, cy := cy.toNat!, sx := sx.toNat!, sy := sy.toNat!,
+                      top := top.toNat!, bot := bot.toNat!, wrap := wrap = "1", sty := (styOfStr sty).getD Style.default }
+    let sop : Option SOp := match op with
+      | "put" => (bytesOfHex a).map fun t => SOp.put t b.toNat!
+      | "lf" => some .lf | "ind" => some .ind | "ri" => some .ri
+      | "su" => some (.su a.toNat!) | "sd" => some (.sd a.toNat!) | "il" => some (.il a.toNat!) | "dl" => some (.dl a.toNat!)
+      | "el" => some (.el a.toNat!) | "ed" => some (.ed a.toNat!) | "ech" => some (.ech a.toNat!) | "dch" => some (.dch a.toNat!)
+      | "resize" => some (.resize a.toNat! b.toNat!)
+      | _ => none
+    let o ← IO.getStdout
+    (match sop with
+     | none => o.putStrLn "bad-op"
+     | some sp =>
+       let s' := s.apply wt.lookup sp
+       let rowsOut := "|".intercalate (s'.lines.map fun l => toString l.width ++ ":" ++ spansStr l.spans)
+       -- the refinement, evaluated: the cells of the result = the cell-level operation on the cells
+       let commutes := decide ((s'.abs wt.lookup) = (s.abs wt.lookup).applyS wt.lookup sp)
+       o.putStrLn s!"{s'.w} {s'.h} {s'.cx} {s'.cy} {s'.sx} {s'.sy} {s'.top} {s'.bot} {b01 s'.wrap} {b01 (s.inv wt.lookup)} {b01 (s'.inv wt.lookup)} {b01 commutes} {if rowsOut.isEmpty then "-" else rowsOut}")
+    o.flush
+    loop wt h d
   | ["ansi", fg, bg, ul] =>
     let st : Style := ⟨BitVec.ofNat 32 fg.toNat!, BitVec.ofNat 32 bg.toNat!, BitVec.ofNat 32 ul.toNat!⟩
     let o ← IO.getStdout
